@@ -84,12 +84,14 @@ def extra_layouts():
     # 2. sibling repositories whose paths differ only in letter case
     f = {'work/Deploy/.github/actionlint.yaml': 'self-hosted-runner:\n  labels: [lab-up]\nconfig-variables: [upvar]\n',
          'work/deploy/.github/actionlint.yaml': 'self-hosted-runner:\n  labels: [lab-low]\nconfig-variables: [lowvar]\n',
-         'work/Deploy/' + W + 'u.yml': 'on: push\njobs:\n  j:\n    runs-on: lab-up\n    steps:\n      - run: echo ${{ vars.UPVAR }} ${{ vars.LOWVAR }}\n      - uses: ./.github/actions/act\n',
-         'work/deploy/' + W + 'l.yml': 'on: push\njobs:\n  j:\n    runs-on: lab-low\n    steps:\n      - run: echo ${{ vars.UPVAR }} ${{ vars.LOWVAR }}\n      - uses: ./.github/actions/act\n',
+         'work/Deploy/' + W + 'u.yml': 'on: push\njobs:\n  j:\n    runs-on: lab-up\n    steps:\n      - run: echo ${{ vars.UPVAR }}\n      - run: echo ${{ vars.LOWVAR }}\n      - uses: ./.github/actions/act\n',
+         'work/deploy/' + W + 'l.yml': 'on: push\njobs:\n  j:\n    runs-on: lab-low\n    steps:\n      - run: echo ${{ vars.UPVAR }}\n      - run: echo ${{ vars.LOWVAR }}\n      - uses: ./.github/actions/act\n',
          'work/Deploy/.github/actions/act/action.yml': ACTION,
          'work/deploy/.github/actions/act/action.yml': ACTION.replace('must:', 'other:')}
     u, l = 'work/Deploy/' + W + 'u.yml', 'work/deploy/' + W + 'l.yml'
-    out.append(('case-sibling-repos', f, ['work/Deploy/.git', 'work/deploy/.git'], [[u, l], [l, u]]))
+    out.append(('case-sibling-repos', f, ['work/Deploy/.git', 'work/deploy/.git'], [[u, l], [l, u]],
+                {u: (['"lab-up" is unknown', 'variable "upvar"'], ['variable "lowvar"']),
+                 l: (['"lab-low" is unknown', 'variable "lowvar"'], ['variable "upvar"'])}))
     # 3. an invalid local call (with @ref) next to a correct call of the same workflow
     big = ''.join('      - run: echo ${{ undefinedg%d }}\n' % i for i in range(40))
     good = ('on: push\njobs:\n  call:\n    uses: ./.github/workflows/callee.yml\n    with:\n      num: notanumber\n      extrag: 1\n'
@@ -102,12 +104,30 @@ def extra_layouts():
     # 5. a repository nested in a sub-directory of another one (own .git, own config): attributed to the inner one
     f = {'repo/.github/actionlint.yaml': 'self-hosted-runner:\n  labels: [lab-outer]\nconfig-variables: [outervar]\n',
          'repo/vendor/inner/.github/actionlint.yaml': 'self-hosted-runner:\n  labels: [lab-inner]\nconfig-variables: [innervar]\n',
-         'repo/' + W + 'o.yml': 'on: push\njobs:\n  j:\n    runs-on: lab-outer\n    steps:\n      - run: echo ${{ vars.OUTERVAR }} ${{ vars.INNERVAR }}\n      - uses: ./.github/actions/act\n',
-         'repo/vendor/inner/' + W + 'i.yml': 'on: push\njobs:\n  j:\n    runs-on: lab-inner\n    steps:\n      - run: echo ${{ vars.OUTERVAR }} ${{ vars.INNERVAR }}\n      - uses: ./.github/actions/act\n',
+         'repo/' + W + 'o.yml': 'on: push\njobs:\n  j:\n    runs-on: lab-outer\n    steps:\n      - run: echo ${{ vars.OUTERVAR }}\n      - run: echo ${{ vars.INNERVAR }}\n      - uses: ./.github/actions/act\n',
+         'repo/vendor/inner/' + W + 'i.yml': 'on: push\njobs:\n  j:\n    runs-on: lab-inner\n    steps:\n      - run: echo ${{ vars.OUTERVAR }}\n      - run: echo ${{ vars.INNERVAR }}\n      - uses: ./.github/actions/act\n',
          'repo/.github/actions/act/action.yml': ACTION,
          'repo/vendor/inner/.github/actions/act/action.yml': ACTION.replace('must:', 'other:')}
     o_, i_ = 'repo/' + W + 'o.yml', 'repo/vendor/inner/' + W + 'i.yml'
-    out.append(('nested-repository', f, ['repo/.git', 'repo/vendor/inner/.git'], [[o_, i_], [i_, o_]]))
+    out.append(('nested-repository', f, ['repo/.git', 'repo/vendor/inner/.git'], [[o_, i_], [i_, o_]],
+                {o_: (['"lab-outer" is unknown', 'variable "outervar"'], ['variable "innervar"']),
+                 i_: (['"lab-inner" is unknown', 'variable "innervar"'], ['variable "outervar"'])}))
+    # 6. checkouts whose .git is a regular FILE (linked worktree, submodule): standalone, and nested in another repository
+    f = {'wt/.git': 'gitdir: /somewhere/.git/worktrees/wt\n',
+         'wt/.github/actionlint.yaml': 'self-hosted-runner:\n  labels: [lab-wt]\nconfig-variables: [wtvar]\n',
+         'wt/' + W + 'w.yml': 'on: push\njobs:\n  j:\n    runs-on: lab-wt\n    steps:\n      - run: echo ${{ vars.WTVAR }}\n      - run: echo ${{ vars.OUTERVAR }}\n      - uses: ./.github/actions/act\n',
+         'wt/.github/actions/act/action.yml': ACTION,
+         'repo/.github/actionlint.yaml': 'self-hosted-runner:\n  labels: [lab-outer]\nconfig-variables: [outervar]\n',
+         'repo/' + W + 'o.yml': 'on: push\njobs:\n  j:\n    runs-on: lab-outer\n    steps:\n      - run: echo ${{ vars.WTVAR }}\n      - run: echo ${{ vars.OUTERVAR }}\n      - run: echo ${{ vars.SUBVAR }}\n',
+         'repo/mods/sub/.git': 'gitdir: ../../.git/modules/sub\n',
+         'repo/mods/sub/.github/actionlint.yaml': 'self-hosted-runner:\n  labels: [lab-sub]\nconfig-variables: [subvar]\n',
+         'repo/mods/sub/' + W + 's.yml': 'on: push\njobs:\n  j:\n    runs-on: lab-sub\n    steps:\n      - run: echo ${{ vars.SUBVAR }}\n      - run: echo ${{ vars.OUTERVAR }}\n      - uses: ./.github/actions/act\n',
+         'repo/mods/sub/.github/actions/act/action.yml': ACTION.replace('must:', 'other:')}
+    w_, o2, s_ = 'wt/' + W + 'w.yml', 'repo/' + W + 'o.yml', 'repo/mods/sub/' + W + 's.yml'
+    out.append(('git-file-checkouts', f, ['repo/.git'], [[w_, o2], [o2, s_], [s_, o2, w_], [o2, w_, s_]],
+                {w_: (['"lab-wt" is unknown', 'variable "wtvar"'], ['variable "outervar"']),
+                 s_: (['"lab-sub" is unknown', 'variable "subvar"'], ['variable "outervar"']),
+                 o2: (['"lab-outer" is unknown', 'variable "outervar"'], ['variable "wtvar"', 'variable "subvar"'])}))
     # 4. files outside any repository (no project: null caches), one of them with an invalid local call
     f = {'loose/o1.yml': bad, 'loose/o2.yml': good, 'loose/o3.yml': lab('o3', 'ubuntu-latest')}
     o = ['loose/o1.yml', 'loose/o2.yml', 'loose/o3.yml']
@@ -297,22 +317,38 @@ def run(ck, tier):
         cases.append({'id': len(cases) + 1, 'name': 'reused-linter:args:' + ','.join(o), 'files': files, 'dirs': dirs,
                       'args': [FILES[x] for x in o], 'reps': 3, 'gomaxprocs': [2, 16], 'cwd': '', 'single': True, 'reuse': True})
     n_main = len(cases)
-    for name, fs, ds, seqs in extra_layouts():
+    attr_expect = {}
+    for lay in extra_layouts():
+        name, fs, ds, seqs = lay[:4]
         fl = [{'path': p_, 'content': c_} for p_, c_ in sorted(fs.items())]
         for k, s_ in enumerate(seqs):
             cases.append({'id': len(cases) + 1, 'name': 'layout:%s:%d' % (name, k), 'files': fl, 'dirs': ds, 'args': s_,
                           'reps': 8 if tier == 'quick' else 40, 'gomaxprocs': [1, 2, 16, 4], 'cwd': '', 'single': True})
+            if len(lay) > 4:
+                attr_expect[cases[-1]['id']] = lay[4]
     vplib.write_jsonl(os.path.join(sd, 'cases.jsonl'), cases)
     vplib.run_harness(['det-run', os.path.join(sd, 'cases.jsonl'), os.path.join(sd, 'out.jsonl')], timeout=3000)
     res = vplib.read_jsonl(os.path.join(sd, 'out.jsonl'))
     lines, meta = [], []
     msgids = {}
+    attr_reported = set()
     base_checked = False
     for c, o in zip(cases, res):
         if o.get('panic'):
             raise Inconclusive('case %s failed: %s' % (c['name'], o['panic']))
         if o.get('tables'):
             ck.violation('tables-modified', 'a built-in table changed during the run of %s' % c['name'], {'kind': 'tables', 'case': c})
+        # attribution (Linter.tla: Attribution): a file is checked with the configuration of the repository that contains it -
+        # its own labels / variables are known, those of the neighbouring repositories are not (declared by the layout)
+        for a, (absent, present) in attr_expect.get(c['id'], {}).items():
+            if a not in (o.get('single') or {}):
+                continue
+            msgs = [d['msg'] for d in o['single'][a]]
+            wrong = [x for x in absent if any(x in m for m in msgs)] + ['missing: ' + x for x in present if not any(x in m for m in msgs)]
+            if wrong and ('attr', a) not in attr_reported:
+                attr_reported.add(('attr', a))
+                ck.violation('attribution:' + os.path.basename(a), 'the file %s is not checked with the configuration of the repository that contains it: %s'
+                             % (a, wrong), {'kind': 'attribution', 'file': a, 'case': c, 'diagnostics': msgs})
         if not base_checked:
             for a, ds in o['single'].items():
                 if not ds:
